@@ -21,4 +21,5 @@ def main (args : List String) : IO UInt32 := do
   | ["run"] => loop stdin stdout runLine; return 0
   | ["judge"] => loop stdin stdout Judge.judgeLine; return 0
   | ["accs"] => loop stdin stdout Judge.accsLine; return 0
+  | ["step"] => loop stdin stdout Judge.stepLine; return 0
   | _ => IO.eprintln "usage: bma400model run < cases"; return 2
